@@ -1,2 +1,3 @@
 -- root of the WowVerif library: property theorems per property
 import WowVerif.Props.C04
+import WowVerif.Props.C17
